@@ -173,4 +173,58 @@ def geomed_gradf_and_inv_hessf {K : Type} [Add K] [Sub K] [Mul K] [Div K] [Neg K
   let invdet := ((o.ofNat 1) / ((a11 * a22) - (a12 * a12)))
   (gx, gy, (a22 * invdet), ((-a12) * invdet), (a11 * invdet))
 
+/-- generated from `arim/im/das.py`, function `_delay_and_sum_noamp_median_nearest` (line 505): `solver` stands for `geomed.geomed` on the (n, 2) real view of the scratch array of delayed samples -/
+def das_noamp_median_nearest {K : Type} {D : Type} [Add K] [Sub K] [Mul K] [Div K] [Neg K]
+    (o : Ops K) (weighted_timetraces : Nat → Nat → D) (tx : Nat → Nat) (rx : Nat → Nat) (lookup_times_tx : Nat → Nat → K) (lookup_times_rx : Nat → Nat → K) (invdt : K) (t0 : K) (fillvalue : D) (solver : List D → D) (numtimetraces : Nat) (numsamples : Nat) (point : Nat) : D :=
+  let datapoints : List D := []
+  let datapoints := (List.range numtimetraces).foldl (fun datapoints scan =>
+        let lookup_time := ((lookup_times_tx point (tx scan)) + (lookup_times_rx point (rx scan)))
+        let lookup_index := (o.round ((lookup_time - t0) * invdt))
+        let datapoints := (if ((lookup_index < (0 : Int)) ∨ (lookup_index ≥ ((numsamples : Nat) : Int))) then
+            let datapoints := datapoints ++ [fillvalue]
+            datapoints
+          else
+            let datapoints := datapoints ++ [(weighted_timetraces scan (lookup_index).toNat)]
+            datapoints)
+        datapoints) datapoints
+  let (res, _) := (solver datapoints, (0 : Nat))
+  let cell_result := res
+  cell_result
+
+/-- generated from `arim/im/das.py`, function `_delay_and_sum_noamp_median_lanczos` (line 638) -/
+def das_noamp_median_lanczos {K : Type} {D : Type} [Add K] [Sub K] [Mul K] [Div K] [Neg K] [LT K] [DecidableLT K] [LE K] [DecidableLE K] [DecidableEq K]
+    (o : Ops K) (d : Arim.Das.Data K D) (weighted_timetraces : Nat → Nat → D) (tx : Nat → Nat) (rx : Nat → Nat) (lookup_times_tx : Nat → Nat → K) (lookup_times_rx : Nat → Nat → K) (invdt : K) (t0 : K) (fillvalue : D) (a : Nat) (solver : List D → D) (numtimetraces : Nat) (numsamples : Nat) (point : Nat) : D :=
+  let datapoints : List D := []
+  let datapoints := (List.range numtimetraces).foldl (fun datapoints scan =>
+        let lookup_time := ((lookup_times_tx point (tx scan)) + (lookup_times_rx point (rx scan)))
+        let lookup_index := ((lookup_time - t0) * invdt)
+        let datapoints := (if ((lookup_index < (o.ofNat 0)) ∨ (lookup_index ≥ (o.ofNat numsamples))) then
+            let datapoints := datapoints ++ [fillvalue]
+            datapoints
+          else
+            let datapoints := datapoints ++ [((fun t x a => lanczos_interpolation o d t x a numsamples) lookup_index (weighted_timetraces scan) a)]
+            datapoints)
+        datapoints) datapoints
+  let (res, _) := (solver datapoints, (0 : Nat))
+  let cell_result := res
+  cell_result
+
+/-- generated from `arim/im/das.py`, function `_delay_and_sum_noamp_huber_lanczos` (line 677): `solver` stands for `huber_m_estimate(., tau)` -/
+def das_noamp_huber_lanczos {K : Type} {D : Type} [Add K] [Sub K] [Mul K] [Div K] [Neg K] [LT K] [DecidableLT K] [LE K] [DecidableLE K] [DecidableEq K]
+    (o : Ops K) (d : Arim.Das.Data K D) (weighted_timetraces : Nat → Nat → D) (tx : Nat → Nat) (rx : Nat → Nat) (lookup_times_tx : Nat → Nat → K) (lookup_times_rx : Nat → Nat → K) (invdt : K) (t0 : K) (fillvalue : D) (a : Nat) (tau : K) (solver : List D → D) (numtimetraces : Nat) (numsamples : Nat) (point : Nat) : D :=
+  let datapoints : List D := []
+  let datapoints := (List.range numtimetraces).foldl (fun datapoints scan =>
+        let lookup_time := ((lookup_times_tx point (tx scan)) + (lookup_times_rx point (rx scan)))
+        let lookup_index := ((lookup_time - t0) * invdt)
+        let datapoints := (if ((lookup_index < (o.ofNat 0)) ∨ (lookup_index ≥ (o.ofNat numsamples))) then
+            let datapoints := datapoints ++ [fillvalue]
+            datapoints
+          else
+            let datapoints := datapoints ++ [((fun t x a => lanczos_interpolation o d t x a numsamples) lookup_index (weighted_timetraces scan) a)]
+            datapoints)
+        datapoints) datapoints
+  let (res, _) := (solver datapoints, (0 : Nat))
+  let cell_result := res
+  cell_result
+
 end Arim.Src
